@@ -269,6 +269,7 @@ func (e *EndpointIndex) deleteServiceInner(shard ShardKey, serviceName, namespac
 	e.clearCacheForService(serviceName, namespace)
 	if !preserveKeys {
 		if len(epShards.Shards) == 0 {
+			verifGate("delete:before-unlink")
 			delete(e.shardsBySvc[serviceName], namespace)
 		}
 		if len(e.shardsBySvc[serviceName]) == 0 {
@@ -317,6 +318,7 @@ func (e *EndpointIndex) UpdateServiceEndpoints(
 	pushType := IncrementalPush
 	// Find endpoint shard for this service, if it is available - otherwise create a new one.
 	ep, created := e.GetOrCreateEndpointShard(hostname, namespace)
+	verifGate("update:after-lookup")
 	// If we create a new endpoint shard, that means we have not seen the service earlier. We should do a full push.
 	if created {
 		if logPushType {
